@@ -96,6 +96,14 @@ CHECKS["C12"] = (
     "u10 == u*/kappa log(10/z0) with the Charnock z0; coming-from == (270 - going-to) mod 360; a 2D spectrum gives the "
     "answer of its 1D reduction; u* scales linearly. Mean method (2..3 bin windows): level is exactly c on c f^-4 "
     "spectra and on a c f^-4 range inside an otherwise different spectrum.", "DESIGN.md#c12", "")
+CHECKS["C16"] = (
+    "Signal lengths 8..13 (thorough ..40), sampling rates 0.5/2/10 Hz: the time axis has 2*floor(L/2) samples spaced "
+    "exactly 1/fs and the series has the same number of samples. With numpy's generator replaced by symbolic phases "
+    "and irfft by its definition over exact roots of unity: every Fourier amplitude equals sqrt(area*E/2)*exp(i phi)*"
+    "transfer factor for all six components (1D and 2D with direction sum), the seed reaches default_rng unchanged, "
+    "scaling E by 4 doubles every amplitude with unchanged phase, and for nfft=8 (thorough 12) the sample variance of "
+    "the series equals sum_{k>=1} area_k E_k |factor|^2 for arbitrary non-negative E and arbitrary phases.",
+    "DESIGN.md#c16", "numpy's FFT and PRNG are replaced by their definitions/models (stated outside the claim).")
 NA = {}
 
 ALL = [f"C{i:02d}" for i in range(1, 21)]
